@@ -263,6 +263,14 @@ def run(ctx):
     okd = len(conv) == 1 and conv[0].args[1] == self_attr("xp")
     ctx.decide(okd, "C15.a2n", a2n.ident, loc_of(a2n), "array_to_namespace converts into the set's own namespace", "array_to_namespace does not convert into self.xp", disc="xp")
 
+    # the device is applied by safe_to_device (which leaves NumPy / JAX alone), never handed to asarray: a conversion forwards the *source* set's device, and
+    # numpy.asarray / jax.numpy.asarray reject a torch.device
+    dev_kw = [n_ for n_ in walk_no_nested(a2n.node) if (isinstance(n_, ast.keyword) and n_.arg == "device" and isinstance(n_.value, ast.Attribute))
+              or (isinstance(n_, ast.Subscript) and isinstance(n_.ctx, ast.Store) and isinstance(n_.slice, ast.Constant) and n_.slice.value == "device")]
+    moves = any(isinstance(n_, ast.Call) and getattr(n_.func, "id", getattr(n_.func, "attr", None)) == "safe_to_device" for n_ in walk_no_nested(a2n.node))
+    ctx.decide(not dev_kw and moves, "C15.a2n", a2n.ident, loc_of(a2n, dev_kw[0] if dev_kw else None), "array_to_namespace moves arrays with safe_to_device and passes no device to asarray",
+               "array_to_namespace hands the set's device to asarray (or no longer uses safe_to_device): to_namespace / from_samples forward the source set's device, so a PyTorch set converted "
+               "to NumPy or JAX passes torch.device('cpu') to numpy.asarray / jnp.asarray, which raises", disc="device")
     # ---- conversion helpers (entries of the frozen transparent-wrapper table) are value preserving
     from ..evalr import TRANSPARENT_REPO_FUNCS as TRF
     for name in ("asarray", "to_numpy", "safe_to_device", "copy_array"):
@@ -570,6 +578,7 @@ MUTANTS = [
     M("array_to_namespace into numpy always", _S, "x = asarray(x, self.xp, **kwargs)", "x = asarray(x, np, **kwargs)", "C15.a2n"),
 ]
 MUTANTS += [
+    M("sample sets hand their device to asarray", _S, "x = asarray(x, self.xp, **kwargs)\n        x = safe_to_device(x, self.device, self.xp)\n        return x", "if self.device is not None:\n            kwargs[\"device\"] = self.device\n        return asarray(x, self.xp, **kwargs)", "C15.a2n"),
     M("fallback identity preconditioning built without the sampler's dtype", "src/aspire/samplers/base.py", "self.preconditioning_transform = IdentityTransform(\n                xp=self.xp, dtype=self.dtype\n            )", "self.preconditioning_transform = IdentityTransform(xp=self.xp)", "C15.pop"),
     M("importance sampler patches the proposal density in place", "src/aspire/samplers/importance.py", "samples.log_prior = samples.array_to_namespace(", "samples.log_q = update_at_indices(samples.log_q, samples.xp.isnan(samples.log_q), samples.xp.inf)\n        samples.log_prior = samples.array_to_namespace(", "C15own.own",
       more=[("from ..utils import track_calls", "from ..utils import track_calls, update_at_indices")]),
